@@ -29,6 +29,36 @@ pub fn restrict(table: &[OpSpec], names: &[&str]) -> Vec<OpSpec> {
 }
 
 /// Evaluates a tree with the library's own operator functions applied strictly in tree order.
+/// as `eval_with_ops`, calling `watch` on the value of every node
+pub fn eval_with_ops_watch<T: Clone + std::fmt::Debug + std::str::FromStr>(
+    tr: &Tree,
+    table: &[OpSpec],
+    ops: &[Operator<'_, T>],
+    vars: &[T],
+    watch: &mut dyn FnMut(&T),
+) -> T
+where
+    <T as std::str::FromStr>::Err: std::fmt::Debug,
+{
+    let find = |name: &str| ops.iter().find(|o| o.repr() == name).expect("operator in library table");
+    let v = match tr {
+        Tree::Num(s) => s.parse::<T>().expect("literal parses"),
+        Tree::Const(c) => find(table[*c].name).constant().expect("constant"),
+        Tree::Var(i) => vars[*i].clone(),
+        Tree::Un(o, a) => {
+            let x = eval_with_ops_watch(a, table, ops, vars, watch);
+            (find(table[*o].name).unary().expect("unary"))(x)
+        }
+        Tree::Bin(o, a, b) => {
+            let x = eval_with_ops_watch(a, table, ops, vars, watch);
+            let y = eval_with_ops_watch(b, table, ops, vars, watch);
+            (find(table[*o].name).bin().expect("binary").apply)(x, y)
+        }
+    };
+    watch(&v);
+    v
+}
+
 pub fn eval_with_ops<T: Clone + std::fmt::Debug + std::str::FromStr>(
     tr: &Tree,
     table: &[OpSpec],
